@@ -1,1 +1,101 @@
-static void oracle_qltlv(const vcfg *c, const uint8_t *f, size_t n) { (void)c; (void)f; (void)n; }
+/* QueryLargeTlv class (C08, C02, C19): chunked retrieval of icon / friendly name / hardware id.
+ * Per-call relation for symbolic (type, offset, size, payload index); reassembly follows by
+ * induction on the offset (L > 0 whenever 'more' is set, next offset = off + L <= S). */
+static uint8_t g_hwid_copy[64];
+static bool q_seen; static bool q_had_cache;
+static uint8_t q_type; static unsigned q_off; static size_t q_S; static const uint8_t *q_data; static bool q_known;
+
+static void oracle_qltlv(const vcfg *c, const uint8_t *f, size_t n) {
+    q_seen = true;
+    /* objects handed out by the port during this very request */
+    if (q_type == 0x0E && !q_had_cache && !g_plat.icon_fail) q_data = g_last_icon;
+    if (q_type == 0x11 && !g_plat.name_fail) q_data = g_last_name;
+    if (q_type == 0x13) q_data = g_last_hwid_dst;     /* the core's own 64-byte buffer, filled by the getter with the id bytes */
+    V_ASSERT(g_nsend == 1, "C02: at most one frame per QueryLargeTlv");
+    V_ASSERT(f[F_OP] == 0x0C, "C08: a QueryLargeTlv is answered by a QueryLargeTlvResp");
+    V_ASSERT(mac6_eq(f + F_ESRC, c->mac), "C02: QueryLargeTlvResp sourced from own address");
+    V_ASSERT(f[F_SEQ] == in.frame[F_SEQ] && f[F_SEQ + 1] == in.frame[F_SEQ + 1], "C08: response carries the request's sequence number");
+    bool bridged = !mac6_eq(in.frame + F_RSRC, in.frame + F_ESRC);
+    if (bridged) V_ASSERT(mac6_is_bcast(f + F_EDST) && mac6_is_bcast(f + F_RDST), "C02: QueryLargeTlvResp broadcast when the mapper is behind a bridge");
+    else V_ASSERT(mac6_eq(f + F_EDST, in.frame + F_RSRC) && mac6_eq(f + F_RDST, in.frame + F_RSRC), "C02: QueryLargeTlvResp goes to the mapper");
+    V_ASSERT(n >= 34, "C02: QueryLargeTlvResp has its length field");
+    size_t maxp = c->mtu - 34;
+    unsigned v = be16(f + 32); size_t L = v & 0x7FFF; bool more = (v & 0x8000) != 0;
+    size_t expL = 0; bool expMore = false;
+    if (q_known && q_S > 0 && q_off < q_S) {
+        size_t rest = q_S - q_off;
+        expL = rest > maxp ? maxp : rest;
+        expMore = rest > maxp;
+    }
+    V_ASSERT(L == expL, "C08: payload is min(what fits in the MTU, bytes remaining at the offset); empty at/past the end or for an unknown property");
+    V_ASSERT(more == expMore, "C08: 'more' set iff bytes remain beyond this chunk");
+    V_ASSERT(n == 34 + L, "C02: QueryLargeTlvResp length is 34 + payload");
+    V_ASSERT(n <= c->mtu, "C08: response fits in the MTU");
+#ifdef V_MEMCPY_RECORD
+    V_ASSERT(g_mc_calls == (L > 0 ? 1u : 0u), "C08: payload produced by one copy, none for an empty payload");
+    if (L > 0) {
+        V_ASSERT(g_mc_dst == (void *)(f + 34), "C08: payload placed right after the length field");
+        V_ASSERT(g_mc_src == (const void *)(q_data + q_off), "C08: payload bytes are the property's bytes at the requested offset");
+        V_ASSERT(g_mc_n == L, "C08: payload length equals the announced length");
+    }
+#else
+    if (in.j < L) {
+        V_ASSERT(f[34 + in.j] == q_data[q_off + in.j], "C08: payload bytes are the property's bytes at the requested offset");
+    }
+#endif
+    if (expMore) V_ASSERT(L > 0 && q_off + L < q_S, "C08: a 'more' chunk makes progress and stays inside the data (reassembly terminates)");
+}
+
+/* getters that the "unknown property type" sub-class must not reach (installed with --replace-calls) */
+int unreach_get_blob(void **d, size_t *n) { (void)d; (void)n; V_ASSERT(0, "class split: large-property getter reached for an unknown type"); return -1; }
+size_t unreach_get_hwid(void *d, size_t n) { (void)d; (void)n; V_ASSERT(0, "class split: hardware-id getter reached for an unknown type"); return 0; }
+
+void h_qltlv(void) {
+    common_setup(0);
+    g_class = CL_QLTLV;
+    V_ASSUME(is_disc_tos(in.frame[F_TOS]) && in.frame[F_OP] == opcode_queryLargeTlv);
+    V_ASSUME(from_mapper_or_none());
+#ifdef QTYPE
+    in.frame[32] = QTYPE; RX[32] = QTYPE;      /* concrete type byte: symex follows one switch arm only */
+#endif
+#ifdef QTYPE_OTHER
+    V_ASSUME(in.frame[32] != 0x0E && in.frame[32] != 0x11 && in.frame[32] != 0x13);
+#endif
+    /* hardware id contract: hwid_len bytes of NUL-free UCS-2LE (the core finds the end by a 16-bit NUL) */
+    V_ASSUME((g_plat.hwid_len & 1) == 0);
+    for (unsigned i = 0; i < 64; i += 2) {
+        if (i < g_plat.hwid_len) V_ASSUME(g_plat.hwid[i] != 0 || g_plat.hwid[i + 1] != 0);
+    }
+    memcpy(g_hwid_copy, g_plat.hwid, 64);
+    q_type = in.frame[32];
+    q_off = be16(in.frame + 34);
+    unsigned seq = be16(in.frame + F_SEQ);
+    bool had_cache = in.st.icon_cached;
+    long live0 = g_live_blocks;
+    q_known = false; q_S = 0; q_data = 0;
+    if (q_type == 0x0E) {
+        q_known = true;
+        if (had_cache) { q_S = in.st.icon_size; q_data = (const uint8_t *)ST->small_icon; }
+        else if (!g_plat.icon_fail) { q_S = g_plat.icon_size; /* q_data set after the fetch, see below */ }
+    } else if (q_type == 0x11) {
+        q_known = true;
+        if (!g_plat.name_fail) q_S = g_plat.name_size;
+    } else if (q_type == 0x13) {
+        q_known = true; q_S = g_plat.hwid_len; q_data = g_hwid_copy;
+    }
+    q_had_cache = had_cache;
+    parseFrame(RX, &g_cfgA);
+    if (seq == 0) {
+        V_ASSERT(g_nsend == 0, "C08: a request with sequence number zero is not answered");
+        V_ASSERT(g_live_blocks == live0, "C19: nothing retained for an ignored request");
+    } else {
+        V_ASSERT(g_nsend == 1 && q_seen, "C08: exactly one QueryLargeTlvResp per request");
+        V_ASSERT(ST->mapper_seq == seq, "C08: request's sequence number remembered");
+        bool newly_cached = (q_type == 0x0E) && !had_cache && !g_plat.icon_fail;
+        V_ASSERT(g_live_blocks == live0 + (newly_cached ? 1 : 0), "C19: fetched name / hardware id released, only the icon is kept (cached) after a QueryLargeTlv");
+        if (q_type == 0x0E && (had_cache || newly_cached)) V_ASSERT(ST->small_icon != 0, "C08: icon cached for the session");
+    }
+    V_ASSERT(ST->see_list_count == in.st.n, "C07: QueryLargeTlv leaves recorded observations alone");
+    V_ASSERT((ST->small_icon == 0) ? (ST->small_icon_size == 0) : 1, "Inv: no icon size without icon");
+    V_WITNESS("h_qltlv end");
+}
